@@ -16,6 +16,7 @@ def self_field_of(fl, op):
 
 def run(db, chk):
     attribute_level_rule(db, chk)
+    failed_push_not_popped_rule(db, chk)
     f = db.one(r"^gix_fs::stack::<impl gix_fs::Stack>::make_relative_path_current$")
     fl = Flow(f)
     pushes = f.calls_to(r"stack::Delegate::push$")
@@ -112,3 +113,26 @@ def attribute_level_rule(db, chk):
                    "`added` becomes true on a path that added no pattern list: the directory gets no stack level, and pop_directory() removes the level of its parent when it is left",
                    "%s:%d" % (f.file, ln), key="attr-level|push_directory")
     chk.floor("Attributes::push_directory: `added = true` assignments", n, 1)
+
+
+def failed_push_not_popped_rule(db, chk):
+    """a level is popped only if it was pushed: Ignore::push_directory / Attributes::push_directory push their pattern-list level as the LAST
+    thing they do, so when one of them returns an error nothing of it is on the stack.  In StackDelegate::push_directory no pop_directory (of the
+    delegate itself, of the ignore or of the attributes state) is reachable from the error edge of such a call - it would remove the parent
+    directory's level, and every later answer (and finally `expect(\"something to pop\")`) is wrong."""
+    f = db.one(r"^<gix_worktree::stack::delegate::StackDelegate<'_, '_> as gix_fs::stack::Delegate>::push_directory$")
+    fl = Flow(f)
+    pushes = [c for c in f.calls() if c.is_(r"state::(ignore|attributes)::<impl gix_worktree::stack::state::(Ignore|Attributes)>::push_directory$|Ignore>::push_directory$|Attributes>::push_directory$")]
+    chk.floor("StackDelegate::push_directory: pushes of the attribute/ignore state", len(pushes), 3)
+    pops = [c for c in f.calls() if c.is_(r"::pop_directory$")]
+    for c in pushes:
+        e = fl.result_edges(c)
+        rb = set().union(*[f.reach_from(t) for _, t in e["bad"]]) if e["bad"] else set()
+        rg = set().union(*[f.reach_from(t) for _, t in e["good"]]) if e["good"] else set()
+        bad = [p for p in pops if p.block in rb and p.block not in rg]
+        kind = "ignore" if "gnore" in c.name else "attributes"
+        # undoing the OTHER state's successful push is fine; popping the state whose push failed (or the delegate as a whole) is not
+        wrong = [p for p in bad if ("gnore" in p.name) == (kind == "ignore") or "StackDelegate" in p.name or "Delegate" in p.name]
+        chk.ob("failed-push-is-not-popped", "push_directory %s.push_directory@%d" % (kind, c.line), not wrong,
+               "on the error edge of this push a pop_directory follows (line %s) that removes a level the failed push never added" % [p.line for p in wrong],
+               c.where(), key="failed-push-popped|%s" % kind)
